@@ -11,7 +11,9 @@
                                 makeNextRequester (+ the two guards of makeRequestersRoutine),
                                 pickIncrAvailablePeer, bpRequester.setBlock/reset/redo,
                                 bpPeer.incrPending/decrPending
-     consensus/state.go         reconstructLastCommit
+     consensus/state.go         reconstructLastCommit; NewState (the guard that decides whether the
+                                last commit is reconstructed, then updateToState); updateToState
+     consensus/reactor.go       Reactor.SwitchToConsensus (the same guard, then updateToState)
      types/block.go             CommitToVoteSet, Commit.GetVote
      types/vote_set.go          NewVoteSet (height 0 panic), addVote, addVerifiedVote (the part
                                 reachable from CommitToVoteSet), HasTwoThirdsMajority
